@@ -110,6 +110,14 @@ def perturbations(ctx, n):
             if c0 is None:
                 ctx.violation("syn_unanswered:plain", "plain SYN not answered", frames=list(ctx.history[-1:]))
                 continue
+            # --- a byte-identical retransmission of the SYN gets the identical SYN-ACK
+            fsyn = e.tcp(sp, dp, 77, 0, SYN, win=1024)
+            ra, rb, rc = ctx.send(fsyn), ctx.send(fsyn), ctx.send(fsyn)
+            ctx.stats["identical_retransmissions"] += 1
+            if not (ra.kind == rb.kind == rc.kind == "R") or not (ra.reply == rb.reply == rc.reply):
+                ctx.violation("retransmission", "the same SYN frame sent three times in a row is answered %s / %s / %s" % (
+                    ra.kind, rb.kind if rb.kind != "R" or rb.reply == ra.reply else "R(different)", rc.kind if rc.kind != "R" or rc.reply == ra.reply else "R(different)"),
+                    observed=[x.reply.hex() if x.reply else x.kind for x in (ra, rb, rc)], expected="three identical SYN-ACKs")
             # --- invariance
             e2 = pkt.Endp(gen.rnd_mac(rng), cfg.mac, e.cip, e.sip, ttl=rng.randrange(1, 256))
             same = [cookie_of(ctx, e, sp, dp), cookie_of(ctx, e2, sp, dp, flags=SYN | rng.choice([0, PSH, URG, ECE, CWR])),
@@ -131,7 +139,13 @@ def perturbations(ctx, n):
                         ("swap_addrs", pkt.Endp(e.cmac, e.smac, e.sip, e.cip), sp, dp)]
             if not v6:
                 m = lambda a: b"\0" * 10 + b"\xff\xff" + a
+                c = lambda a: b"\0" * 12 + a
                 variants.append(("version", pkt.Endp(e.cmac, e.smac, m(e.cip), m(e.sip)), sp, dp))
+                variants.append(("version_compat", pkt.Endp(e.cmac, e.smac, c(e.cip), c(e.sip)), sp, dp))
+            elif e.cip[:12] == bytes(12) or e.cip[:12] == b"\0" * 10 + b"\xff\xff":
+                # mapped <-> compatible form of the same embedded IPv4 address is a different IPv6 address
+                flip = lambda a: (b"\0" * 10 + b"\xff\xff" + a[12:]) if a[:12] == bytes(12) else (bytes(12) + a[12:])
+                variants.append(("mapped_vs_compat", pkt.Endp(e.cmac, e.smac, flip(e.cip), e.sip), sp, dp))
             for what, ev, s, d in variants:
                 c = cookie_of(ctx, ev, s, d)
                 done += 1
@@ -218,4 +232,4 @@ def run(tier, seed):
                                  "what": "changing only %s left the cookie unchanged in %d sampled pairs (run total %d of %d, budget %d)" % (what, len(cs), co, pairs, budget),
                                  "frames": [f for c in cs[:3] for f in c.get("frames", [])], "config": None, "observed": co,
                                  "expected": "<= %d coincidences" % budget, "seed": seed, "tier": tier})
-    return v.finish(RULE, floor=20000, assumptions=ASSUME)
+    return v.finish(RULE, floor=500, assumptions=ASSUME)
